@@ -32,7 +32,7 @@ MANIFEST = {
 }
 
 NUM_VALUES = ['007', '-0', '1.50', '-0.0', '12345678901234567890', '1234567890.0123456789', '0.00001', '100000000000000000000.5',
-              '0.1', '-12.75', '3', '1e5']
+              '0.1', '-12.75', '3', '1e5', '-1', '-2', '-1.0', '-2.0']
 
 
 def universe():
@@ -147,7 +147,7 @@ def bounds(tier, seed):
     return {'rules': [rr.default_text(r) for r in u], 'flavours': 'all', 'numeric_texts': NUM_VALUES}
 
 
-FLOORS = {'pair_roundtrips': 300, 'pair_backtracks': 20, 'hooked_roundtrips': 1000, 'roundtrips': 3000, 'with_conversion': 300, 'with_anonymous': 100, 'adjacent_wildcards': 100, 'path_filter': 100}
+FLOORS = {'shared_route_roundtrips': 2000, 'pair_roundtrips': 300, 'pair_backtracks': 20, 'hooked_roundtrips': 1000, 'roundtrips': 3000, 'with_conversion': 300, 'with_anonymous': 100, 'adjacent_wildcards': 100, 'path_filter': 100}
 
 
 def roundtrip(rmod, rule, text, path, hook=None):
@@ -256,6 +256,47 @@ def check_pair(res, rmod, pair, tier):
                                    f'rules {[texts[i] for i in order]} in one router, path {p!r}: {bad}', sig='pair:' + bad.split(' ')[0])
 
 
+def check_shared(res, rmod, rule):
+    """ONE Route object builds the URLs of all its matches, one after the other (as templates do), in both orders"""
+    c = res['counters']
+    if not any(a[0] == 'W' for a in rule):
+        return
+    text = rr.default_text(rule)
+    matched = [(p, rr.match(rule, p.strip('/'))) for p in paths_for(rule)]
+    matched = [(p, v) for p, v in matched if v is not None]
+    for order in ('forward', 'backward'):
+        router = rmod.RadiRouter()
+        try:
+            route = router.add(text, 'GET', lambda **kw: kw)
+        except Exception:   # noqa  (judged by the single-path layer)
+            return
+        res['states'] += 1
+        seq = matched if order == 'forward' else matched[::-1]
+        for i, (p, vals) in enumerate(seq):
+            named = {k: v for k, v in vals if k is not None}
+            anon = [v for k, v in vals if k is None]
+            res['transitions'] += 1
+            c['shared_route_roundtrips'] += 1
+            res['nontrivial'] += 1
+            try:
+                url = route.url(*anon, **named)
+                ep, err = router.resolve(url, ['GET'])
+                back = rr.match(rule, url.strip('/')) if isinstance(url, str) else None
+                bad = None
+                if ep is None or ep[1] != named or back is None or [v for _, v in back] != [v for _, v in vals]:
+                    bad = f'url {url!r} built from {vals!r} matches with {None if back is None else back!r}'
+            except Exception as e:   # noqa
+                bad = f'url() / resolve raised {type(e).__name__}: {e}'
+            if bad:
+                alone = roundtrip(rmod, rule, text, p)
+                if alone is None:        # fine on a Route of its own: the earlier builds on this Route object matter
+                    core.add_violation(res, {'kind': 'shared', 'ast': [list(a) for a in rule], 'text': text, 'paths': [q for q, _ in seq[:i + 1]][-6:]},
+                                       f'rule {text!r}: one Route object built the URLs for the paths {[q for q, _ in seq[:i + 1]][-6:]!r} in this order; '
+                                       f'for the last one: {bad}', sig='shared-route')
+                break
+        res['outcomes'].add('shared route ok')
+
+
 def check_hooked(res, rmod, rule):
     """a route hook on the very pattern of the rule, written with other wildcard names, installed before / after the route"""
     c = res['counters']
@@ -351,6 +392,7 @@ def work(spec):
         u = universe()
         for rule in u[i:i + 8]:
             check_hooked(res, rmod, rule)
+            check_shared(res, rmod, rule)
         core.add_sample(res, {'hooked_rules': [rr.default_text(r) for r in u[i:i + 8]]})
     elif kind == 'rule':
         rule = universe()[i]
@@ -370,6 +412,25 @@ def replay(case):
     rmod = sut.sub('router.radirouter')
     for t in case.get('after_rules') or []:
         rmod.Route(t)
+    if case.get('kind') == 'shared':
+        rule = tuple(tuple(a) for a in case['ast'])
+        router = rmod.RadiRouter()
+        route = router.add(case['text'], 'GET', lambda **kw: kw)
+        last = None
+        for p in case['paths']:
+            vals = rr.match(rule, p.strip('/'))
+            named = {k: v for k, v in vals if k is not None}
+            anon = [v for k, v in vals if k is None]
+            try:
+                url = route.url(*anon, **named)
+                back = rr.match(rule, url.strip('/'))
+                ok = back is not None and [v for _, v in back] == [v for _, v in vals]
+                last = None if ok else f'url {url!r} built from {vals!r} matches with {back!r}'
+            except Exception as e:   # noqa
+                last = f'url() raised {type(e).__name__}: {e}'
+        if last is None:
+            return None
+        return f'rule {case["text"]!r}: one Route object builds the URLs for the paths {case["paths"]!r} one after the other; for the last one: {last}'
     if case.get('kind') == 'pair':
         pair = tuple(tuple(tuple(a) for a in r) for r in case['pair'])
         res = core.new_result()
